@@ -269,6 +269,12 @@ class IRSpec:
             return se.ev(st, a, lambda s, v: self.to_list(se, s, v, cont))
         if fname in ('all', 'any') and isinstance(e.args[0], ast.GeneratorExp):
             return self.quant_genexp(se, st, e.args[0], fname == 'all', cont)
+        if fname in ('min', 'max') and len(e.args) == 2 and not e.keywords:
+            def k(s, vs):
+                a, b = vs
+                if a[0] != 'int' or b[0] != 'int': raise Unsupported('%s of %s,%s' % (fname, a[0], b[0]))
+                return cont(s, I(If(a[1] <= b[1], a[1], b[1]) if fname == 'min' else If(a[1] >= b[1], a[1], b[1])))
+            return se.evs(st, e.args, k)
         if fname == 'len':
             def k(s, v):
                 if v[0] == 'list': return cont(s, I(c.len(v[1])))
